@@ -54,9 +54,12 @@ def rand_doc(rnd):
     elif mode == "others":
         doc["plugins"] = {"shell": {"open": True}, "fs": rand_json(rnd, 3), "updater": {"endpoints": ["https://x/y"], "pubkey": "abc"}}
     elif mode == "with-typegen":
-        doc["plugins"] = {"typegen": {"projectPath": "old", "outputPath": "old-out", "validationLibrary": "zod", "extraKey": rand_json(rnd, 2)}}
+        # a complete earlier entry: every setting the tool persists has an old, different value
+        doc["plugins"] = {"typegen": {"projectPath": "old", "outputPath": "old-out", "validationLibrary": "zod", "extraKey": rand_json(rnd, 2), "verbose": True, "visualizeDeps": True,
+                                      "includePrivate": True, "force": True, "typeMappings": {"DateTime<Utc>": "number", "Old": "string"},
+                                      "excludePatterns": ["old/**"], "includePatterns": ["legacy/*.rs"]}}
     elif mode == "others+typegen":
-        doc["plugins"] = {"a-plugin": rand_json(rnd, 3), "typegen": {"projectPath": "./nowhere"}, "z": [1, 2, {"q": None}]}
+        doc["plugins"] = {"a-plugin": rand_json(rnd, 3), "typegen": {"projectPath": "./nowhere", "typeMappings": {"Stale": "boolean"}, "force": True}, "z": [1, 2, {"q": None}]}
     elif mode == "typegen-garbage":
         doc["plugins"] = {"typegen": rnd.choice([5, "str", [1], None]), "keep": {"me": 1.5}}
     elif mode == "null":
